@@ -4,6 +4,7 @@ import json, subprocess
 
 HOOK_COMMITS = ["cdcb137"]
 
+LEG = " Each check runs twice: in the default release build of the harness and, as a child process, in a build with overflow checks and debug assertions (profile `checked`); violations of either leg are reported."
 SEQ_NOTE = "Bounded: all sequences up to the per-table depth written to the evidence file plus all 0/1-deviation lanes; argument values range over fill patterns (zero, all-ones, two distinct-byte patterns), not all 2^64 values. Oracles are written from the specifications (DESIGN.md 9.1 lists what is asserted and what is pinned to the baseline)."
 SEQ_TECH = "stateless exhaustive DFS over all builder-operation sequences to a depth bound + deviation-bounded long lanes, executed on the real crate, every prefix judged"
 
@@ -75,6 +76,7 @@ def main():
     for i in ids:
         if i in P:
             eng, tech, text, note, ref = P[i]
+            note = note + LEG if i != "C18" else note
             checks.append({
                 "property_id": i,
                 "quick_cmd": "./check %s quick" % i,
@@ -106,7 +108,7 @@ def main():
         ],
         "checks": checks,
         "not_applicable": na,
-        "notes": "All checks run ./check, which rebuilds /verif/vcheck (path dependency on /repo, cfg hook on) and executes it. Exit 0 held, 1 VIOLATION, 2 machinery failure. Known findings: /verif/known_findings.json.",
+        "notes": "All checks run ./check, which rebuilds /verif/vcheck in two profiles (path dependency on /repo, cfg hook on) and executes it. Exit 0 held, 1 VIOLATION, 2 machinery failure. Known findings: /verif/known_findings.json.",
     }
     if not na:
         del m["not_applicable"]
